@@ -25,6 +25,8 @@ pub enum Seam {
     SpyBounded,
     /// StatsdClient over BufferedSpyMetricSink, flush through the client
     ClientSpy,
+    /// StatsdClient over QueuingMetricSink over (recording) BufferedSpyMetricSink
+    QueueClientSpy,
 }
 
 pub struct WriterCampaign {
@@ -115,7 +117,7 @@ impl Campaign for WriterCampaign {
         match self.seam {
             Seam::Mlw => writer_case(g),
             Seam::MlwTiny => tiny_cap_case(g),
-            Seam::Spy | Seam::ClientSpy | Seam::SpyBounded => {
+            Seam::Spy | Seam::ClientSpy | Seam::SpyBounded | Seam::QueueClientSpy => {
                 g.fixed_term = Some("\n");
                 writer_case(g)
             }
@@ -172,6 +174,14 @@ impl Campaign for WriterCampaign {
                     },
                 )
             }
+            Seam::QueueClientSpy => (
+                queue_client_spy(case, ctx.w()),
+                SeamInfo {
+                    failures_visible: false,
+                    fault_free: true,
+                    drop_may_fail_hidden: false,
+                },
+            ),
             Seam::ClientSpy => (
                 client_spy(case),
                 SeamInfo {
@@ -348,4 +358,100 @@ impl Campaign for FaultTree {
             classes: classes_acc,
         }
     }
+}
+
+
+/// C06 seam (c): the history through `StatsdClient` over a `QueuingMetricSink`
+/// over a recording wrapper around a buffered spy sink. The wrapper signals when
+/// the inner emit has returned, so "emitting into the buffered sink returned Ok"
+/// is an observed event before the flush through the queue is issued.
+fn queue_client_spy(case: &WriterCase, w: std::time::Duration) -> Vec<oracle::OpTrace> {
+    use crate::sockets::{Recording, ReleaseSignal};
+    use cadence::prelude::*;
+    use cadence::{BufferedSpyMetricSink, QueuingMetricSink, StatsdClient};
+    use oracle::{Attempt, OpKind, OpResult, OpTrace};
+    use std::sync::atomic::{AtomicUsize, Ordering};
+    use std::sync::{Arc, Mutex};
+    use std::time::Instant;
+    let (rx, spy) = BufferedSpyMetricSink::with_capacity(None, Some(case.cap));
+    let log = Arc::new(Mutex::new(Vec::new()));
+    let done = Arc::new(AtomicUsize::new(0));
+    let released = Arc::new(AtomicUsize::new(0));
+    let rec = Recording {
+        inner: spy,
+        log: log.clone(),
+        done: done.clone(),
+        released: ReleaseSignal(released.clone()),
+    };
+    let client = StatsdClient::from_sink("", QueuingMetricSink::from(rec));
+    let att = |v: Vec<Vec<u8>>| -> Vec<Attempt> { v.into_iter().map(|bytes| Attempt { bytes, err: None }).collect() };
+    let mut out = Vec::new();
+    let mut n = 0usize;
+    for op in &case.ops {
+        match op {
+            WOp::Emit(key) => {
+                let line = format!("{}:1|c", key);
+                let r = util::catch(|| client.count(key.as_str(), 1i64));
+                let result = match r {
+                    Ok(Ok(_)) => {
+                        n += 1;
+                        let deadline = Instant::now() + w;
+                        while done.load(Ordering::SeqCst) < n && Instant::now() < deadline {
+                            std::thread::yield_now();
+                        }
+                        if done.load(Ordering::SeqCst) < n {
+                            OpResult::Panicked("queued metric did not reach the buffered sink within W".into())
+                        } else {
+                            match log.lock().unwrap()[n - 1].clone() {
+                                Ok(k) => OpResult::Wrote(k),
+                                Err(e) => OpResult::Err(e),
+                            }
+                        }
+                    }
+                    Ok(Err(e)) => OpResult::Panicked(format!("unbounded queuing sink refused: {}", e)),
+                    Err(p) => OpResult::Panicked(p),
+                };
+                out.push(OpTrace {
+                    kind: OpKind::Emit(line.into_bytes()),
+                    attempts: att(seams::drain_rx(&rx)),
+                    result,
+                });
+            }
+            WOp::Flush => {
+                let r = util::catch(|| client.flush());
+                out.push(OpTrace {
+                    kind: OpKind::Flush,
+                    attempts: att(seams::drain_rx(&rx)),
+                    result: match r {
+                        Ok(Ok(())) => OpResult::Flushed,
+                        Ok(Err(e)) => OpResult::Err(oracle::ErrTok {
+                            kind: std::io::ErrorKind::Other,
+                            token: Some(util::hash_str(&e.to_string())),
+                        }),
+                        Err(p) => OpResult::Panicked(p),
+                    },
+                });
+            }
+        }
+        if matches!(out.last().map(|o| &o.result), Some(OpResult::Panicked(_))) {
+            std::mem::forget(client);
+            return out;
+        }
+    }
+    let r = util::catch(move || drop(client));
+    let deadline = Instant::now() + w;
+    while released.load(Ordering::SeqCst) == 0 && Instant::now() < deadline {
+        std::thread::yield_now();
+    }
+    let result = match r {
+        Ok(()) if released.load(Ordering::SeqCst) == 0 => OpResult::Panicked("wrapped buffered sink was not dropped within W after the client was dropped".into()),
+        Ok(()) => OpResult::None,
+        Err(p) => OpResult::Panicked(p),
+    };
+    out.push(OpTrace {
+        kind: OpKind::Drop,
+        attempts: att(seams::drain_rx(&rx)),
+        result,
+    });
+    out
 }
